@@ -119,6 +119,7 @@ func init() {
 						return
 					case <-time.After(time.Duration(1+rng.Intn(40)) * time.Millisecond):
 					}
+					tw.emit(map[string]interface{}{"event": "scrape-begin"})
 					s := scrapeMetrics(cfg.MetricsAddress)
 					if s.OK {
 						tw.emit(map[string]interface{}{"event": "scrape", "inflight": s.Inflight, "total": totalsList(s.Total), "final": false})
